@@ -53,6 +53,9 @@ func env(name, def string) string {
 
 var images bool
 
+// curIndex: index of the scenario being run (chooses among spellings deterministically)
+var curIndex int
+
 func errClass(err error) string {
 	m := err.Error()
 	for _, p := range []string{"Named Parameters", "syntax", "Unknown column", "PK columnName", "pk update", "not support", "invalid conn", "expected", "Duplicate"} {
@@ -179,6 +182,7 @@ func main() {
 			cls = fmt.Sprintf("schema=%s,shape=%s,place=%s,explicit=%v", schema.Name, sc.Shape, sc.Place, style.Explicit)
 		}
 		t := w.Begin(map[string]interface{}{"i": i, "sc": sc, "schema": schema.Name, "style": style}, cls)
+		curIndex = i
 		if !run(lab, t, sc, schema, style) {
 			aborted++
 		}
@@ -225,6 +229,12 @@ func run(lab *atlab.Lab, t *trace.T, sc scenario, schema *atlab.Schema, style at
 							if cur[k-1] != atlab.Absent && cur[k-1].W >= 0 {
 								key := k
 								lab.Prelude = func(ctx context.Context, tx *sql.Tx) {
+									if style.FailIns && !schema.Auto {
+										// an INSERT of a key that is there: the database refuses it (1062), the application carries on
+										q, a := schema.SQL(atlab.Stmt{Kind: "ins", Keys: []int{key}, W: 2}, atlab.Style{})
+										_, _ = tx.ExecContext(ctx, q, a...)
+										return
+									}
 									q, a := schema.SQL(atlab.Stmt{Kind: "upd", Keys: []int{key}, W: 2}, atlab.Style{})
 									lab.Srv.AddFault(memsql.Fault{Class: "update", Table: schema.Name})
 									_, _ = tx.ExecContext(ctx, q, a...)
@@ -288,6 +298,30 @@ func run(lab *atlab.Lab, t *trace.T, sc scenario, schema *atlab.Schema, style at
 				nb++
 				q := fmt.Sprintf("UPDATE %s SET id = ? WHERE id = ?", schema.Name)
 				args := []interface{}{int64(77), schema.KeyVals(st.Key)[0]}
+				spelling := "plain"
+				if schema.KeyKind == "int" && len(schema.KeyCols) == 1 && !schema.Zoo {
+					// the same change of a primary key in the spellings SQL allows: the column qualified by the table,
+					// in upper case, back-quoted; and as the update half of an upsert that hits the existing row
+					tn := schema.Name
+					switch curIndex % 7 {
+					case 1:
+						spelling, q = "qualified", fmt.Sprintf("UPDATE %s SET %s.id = ? WHERE id = ?", tn, tn)
+					case 2:
+						spelling, q = "upper", fmt.Sprintf("UPDATE %s SET ID = ? WHERE id = ?", tn)
+					case 3:
+						spelling, q = "quoted", fmt.Sprintf("UPDATE %s SET `id` = ? WHERE id = ?", tn)
+					case 4, 5, 6:
+						col := "id"
+						spelling = "upsert"
+						if curIndex%7 == 5 {
+							spelling, col = "upsert-qualified", tn+".id"
+						} else if curIndex%7 == 6 {
+							spelling, col = "upsert-upper", "ID"
+						}
+						q = fmt.Sprintf("INSERT INTO %s (id, w1, w2, u1) VALUES (?, ?, ?, ?) ON DUPLICATE KEY UPDATE %s = %s + 100", tn, col, col)
+						args = []interface{}{schema.KeyVals(st.Key)[0], schema.W1(2), schema.W2(2), schema.U1(0)}
+					}
+				}
 				if schema.KeyKind != "int" {
 					t.Add("Abort", "why", "pk update only on int keys", "sig", "p1pk-na")
 					aborted = true
@@ -296,9 +330,9 @@ func run(lab *atlab.Lab, t *trace.T, sc scenario, schema *atlab.Schema, style at
 				err := lab.ExecSQL(ctx, q, args, style.Explicit)
 				db, _ := lab.Project(schema)
 				if err != nil {
-					t.Add("RefusedPk", "b", nb, "key", st.Key, "db", db, "undorows", lab.UndoRows(), "sig", sigBase+":pkupdate")
+					t.Add("RefusedPk", "b", nb, "key", st.Key, "db", db, "undorows", lab.UndoRows(), "sig", sigBase+":pkupdate:"+spelling)
 				} else {
-					t.Add("PkAccepted", "b", nb, "key", st.Key, "db", db, "undorows", lab.UndoRows(), "sig", sigBase+":pkupdate")
+					t.Add("PkAccepted", "b", nb, "key", st.Key, "db", db, "undorows", lab.UndoRows(), "sig", sigBase+":pkupdate:"+spelling)
 				}
 				aborted = true // nothing more to do in this scenario
 				return fmt.Errorf("done")
